@@ -1,5 +1,6 @@
 import TsVerif.Common.IO
 import TsVerif.C03.Judge
+import TsVerif.C03.Search
 /-!
 Driver for C03.  Reads grammar blocks (grammar.json, table dump, terminals) and cases (token string,
 real has_error, real internal tree, real visible tree); prints one line per grammar
@@ -92,18 +93,6 @@ partial def aliasesOfSym (x : String) : Rule → List String
   | .prec _ _ a => aliasesOfSym x a
   | _ => []
 
-/-- all rules that occur under a REPEAT/REPEAT1 somewhere in the grammar (candidates for what an
-auxiliary symbol repeats) -/
-partial def repContents : Rule → List Rule
-  | .rep a => a :: repContents a
-  | .rep1 a => a :: repContents a
-  | .seq a b => repContents a ++ repContents b
-  | .choice a b => repContents a ++ repContents b
-  | .field _ a => repContents a
-  | .alias _ _ a => repContents a
-  | .prec _ _ a => repContents a
-  | _ => []
-
 partial def hasPrec : Rule → Bool
   | .prec _ _ _ => true
   | .seq a b => hasPrec a || hasPrec b
@@ -145,143 +134,6 @@ def relScope (g : Grammar) (tbl : Table) : Bool :=
       | some b => isTerminalBody b
       | none => false
     | _ => true
-
-/-- search for the auxiliary-symbol assignment (untrusted: `relOK` checks the result) -/
-def findAux (g : Grammar) (tbl : Table) (prods : List (Nat × List Nat × Nat)) : AuxMap :=
-  let cands0 := (g.rules.flatMap fun e => repContents e.2)
-  -- smaller rules first (an inner repeat's content also matches inside the outer one's)
-  let cands := (cands0.toArray.qsort fun a b => (toString (repr a)).length < (toString (repr b)).length).toList
-  let auxSyms := (List.range tbl.symbolCount).filter fun y =>
-    y ≥ tbl.tokenCount && (g.body (tbl.symName y)).isNone
-  let pass := fun (aux : AuxMap) =>
-    auxSyms.foldl (fun aux R =>
-      if (aux.lookup R).isSome then aux else
-      match cands.find? (fun a => (prods.filter fun p => p.1 == R).all (prodOK g tbl ((R, a) :: aux))) with
-      | some a => (R, a) :: aux
-      | none => aux) aux
-  let aux0 := (List.range (auxSyms.length + 1)).foldl (fun aux _ => pass aux) []
-  -- repair: the smallest rule that fits an auxiliary symbol's own productions need not be the one its
-  -- users mean (`repeat(seq('c','c'))` also reads as `repeat1('c')`); swap assignments while that
-  -- lowers the number of productions that do not fit
-  let badCount := fun (aux : AuxMap) => (prods.filter fun p => !prodOK g tbl aux p).length
-  let repair := fun (aux : AuxMap) =>
-    auxSyms.foldl (fun aux R =>
-      if badCount aux == 0 then aux else
-      let others := aux.filter fun e => e.1 != R
-      cands.foldl (fun best a =>
-        let aux' := (R, a) :: others
-        if badCount aux' < badCount best then aux' else best) aux) aux
-  if badCount aux0 == 0 then aux0 else (List.range 3).foldl (fun aux _ => repair aux) aux0
-
-
-/-- a cheap bound on the size of `expand` (so that the checked `coverOK` is only run on small expansions) -/
-def expandCount (g : Grammar) : Nat → Rule → Nat
-  | 0, _ => 1
-  | f + 1, r =>
-    match r with
-    | .sym x => match g.body x with
-      | some b => if !isTerminalBody b && g.inline.contains x then expandCount g f b else 1
-      | none => 1
-    | .seq a b => min 1000000 (expandCount g f a * expandCount g f b)
-    | .choice a b => min 1000000 (expandCount g f a + expandCount g f b)
-    | .rep _ => 2
-    | .field _ a => expandCount g f a
-    | .alias _ _ a => expandCount g f a
-    | .prec _ _ a => expandCount g f a
-    | _ => 1
-
-def expandSmall (g : Grammar) (tbl : Table) (aux : AuxMap) : Bool :=
-  (List.range tbl.symbolCount).all fun y => y < tbl.tokenCount ||
-    match aux.lookup y with
-    | some a => expandCount g (relFuel g) a ≤ 2000
-    | none => match g.body (tbl.symName y) with
-      | some b => expandCount g (relFuel g) b ≤ 2000
-      | none => true
-
-/-- the canonical production set: the flattening of every rule, with the production ids the table uses
-(untrusted: `coverOK` checks the sequences, `completeOK` the ids) -/
-def canonP (g : Grammar) (tbl : Table) (aux : AuxMap) (prods : List Prod) : List Prod :=
-  let pidFor := fun (A : Nat) (syms : List Nat) =>
-    let cands := prods.filter fun p => p.1 == A && p.2.1.length == syms.length
-    match cands.find? (fun p => p.2.1 == syms) with
-    | some p => p.2.2
-    | none =>
-      match cands.find? (fun p => (p.2.1.zip syms).all fun ab => ab.1 == ab.2 || ab.2 ≥ tbl.tokenCount) with
-      | some p => p.2.2
-      | none => (cands.head?.map (·.2.2)).getD 0
-  ((List.range tbl.symbolCount).flatMap fun y =>
-    if y < tbl.tokenCount then [] else
-    match aux.lookup y with
-    | some a => (y, [y, y], pidFor y [y, y]) :: (expand g tbl aux (relFuel g) a).map fun sy => (y, sy, pidFor y sy)
-    | none => match g.body (tbl.symName y) with
-      | some b => (expand g tbl aux (relFuel g) b).map fun sy => (y, sy, pidFor y sy)
-      | none => []).eraseDups
-
-/-! untrusted computation of the LR annotation (validated by `completeOK`) -/
-
-def startSymbol (tbl : Table) : Option Nat :=
-  ((tbl.gotos.getD 1 []).find? fun e => effective (tbl.actions e.2 0) == [Action.accept]).map (·.1)
-
-def computeFirst (tbl : Table) (P : List Prod) : List Nat × List (Nat × List Nat) :=
-  let lhss := (P.map (·.1)).eraseDups
-  let step := fun (st : List Nat × List (Nat × List Nat)) =>
-    let ann : Ann := { nullable := st.1, first := st.2 }
-    let nullable := lhss.filter fun A => P.any fun p => p.1 == A && p.2.1.all (nullOf tbl ann)
-    let first := lhss.map fun A =>
-      (A, ((P.filter fun p => p.1 == A).flatMap fun p =>
-        let rec pref : List Nat → List Nat
-          | [] => []
-          | Y :: ys => firstOf tbl ann Y ++ (if nullOf tbl ann Y then pref ys else [])
-        pref p.2.1).eraseDups)
-    (nullable, first)
-  (List.range (lhss.length + 3)).foldl (fun st _ => step st) ([], [])
-
-partial def annLoop (tbl : Table) (P : List Prod) (allow : Allow) (ann0 : Ann) (sets : Array (Std.HashSet Item))
-    (work : List (Nat × Item)) (budget : Nat) : Array (Std.HashSet Item) :=
-  match work, budget with
-  | [], _ => sets
-  | _, 0 => sets
-  | (s, it) :: rest, b + 1 =>
-    let add := fun (acc : Array (Std.HashSet Item) × List (Nat × Item)) (q : Nat) (x : Item) =>
-      if q < acc.1.size && !(acc.1[q]!.contains x) then (acc.1.modify q (·.insert x), (q, x) :: acc.2) else acc
-    if it.dot ≥ it.rhs.length then annLoop tbl P allow ann0 sets rest b else
-    match it.cur with
-    | none => annLoop tbl P allow ann0 sets rest b
-    | some X =>
-      if X < tbl.tokenCount then
-        match effective (tbl.actions s X) with
-        | [.shift s' false _] =>
-          let r := add (sets, rest) s' it.adv
-          annLoop tbl P allow ann0 r.1 r.2 b
-        | _ => annLoop tbl P allow ann0 sets rest b
-      else
-        let q := tbl.goto s X
-        let r := if q != 0 then add (sets, rest) q it.adv else (sets, rest)
-        let las := firstSeq tbl ann0 (it.rhs.drop (it.dot + 1)) it.la
-        -- where does the single symbol of a unit production lead from here?
-        let target := fun (Y : Nat) =>
-          if Y < tbl.tokenCount then
-            match effective (tbl.actions s Y) with
-            | [.shift s' false _] => s'
-            | _ => 0
-          else tbl.goto s Y
-        let r := (P.filter fun p => p.1 == X && allow it.ctx.1 it.ctx.2 p).foldl (fun acc p =>
-          match p.2.1 with
-          | [Y] =>
-            -- unit reduction removed here: `Y` leads directly where the goto on `X` would
-            if q != 0 && target Y == q && Y != X then add acc s { it with sub := some p }
-            else las.foldl (fun acc x => add acc s ⟨X, p.2.1, p.2.2, 0, x, none⟩) acc
-          | _ => las.foldl (fun acc x => add acc s ⟨X, p.2.1, p.2.2, 0, x, none⟩) acc) r
-        annLoop tbl P allow ann0 r.1 r.2 b
-
-def computeAnn (tbl : Table) (P : List Prod) (allow : Allow) (start : Nat) : Ann :=
-  let fn := computeFirst tbl P
-  let ann0 : Ann := { nullable := fn.1, first := fn.2 }
-  let startItems := (P.filter fun p => p.1 == start).map fun p => (⟨start, p.2.1, p.2.2, 0, 0, none⟩ : Item)
-  let sets0 : Array (Std.HashSet Item) := Array.replicate tbl.stateCount {}
-  let sets0 := if 1 < sets0.size then sets0.modify 1 (fun s => startItems.foldl (·.insert ·) s) else sets0
-  let sets := annLoop tbl P allow ann0 sets0 (startItems.map fun it => (1, it)) 400000
-  { ann0 with items := sets.map (·.toList) }
 
 def onReady (s : GState) : GState × String :=
   let tbl := Table.ofLines s.tableLines.toList
